@@ -999,8 +999,8 @@ class ChannelScenario(Scenario):
 
             class GW(gb.BaseGateway):
                 def _send(self, *a, **k):
-                    G.frames_sent = G.frames_sent + 1
                     sched.sync("task")
+                    G.frames_sent = G.frames_sent + 1
 
             gw = GW(IO(), "replay", _startcount=1)
             gw._receivepool = _NoPool()
@@ -1015,8 +1015,8 @@ class ChannelScenario(Scenario):
                 others.append(c)
 
             def cb(x):
+                sched.sync("task")       # (the gate first: the effect belongs to this thread's turn)
                 seen.append("END" if x is END else x)
-                sched.sync("task")
 
             END = object()
             state = {"loads": gb.loads_internal}
@@ -1024,7 +1024,8 @@ class ChannelScenario(Scenario):
             self._restore = lambda: setattr(gb, "loads_internal", state["loads"])
             for k, c in enumerate(others):
                 rev[self.chs[k + 1]] = f"CHOBJ{k + 1}"
-            d = {"GWOBJ": gw, "FOBJ": gw._channelfactory, "CHOBJ": ch, "CBOBJ": cb, "ENDOBJ": END, "EOFError": EOFError, "OSError": OSError, "RemoteError": gb.RemoteError}
+            d = {"GWOBJ": gw, "FOBJ": gw._channelfactory, "CHOBJ": ch, "CBOBJ": cb, "ENDOBJ": END, "EOFError": EOFError, "OSError": OSError, "RemoteError": gb.RemoteError,
+                 "TimeoutError": gb.TimeoutError}
             for n in self.ITEMS:
                 d[f"ITEM_{n}"] = n
 
